@@ -7,5 +7,8 @@ PY=/venv/bin/python
 if ! "$PY" -c 'import hypothesis' 2>/dev/null; then
   /venv/bin/pip install --no-index --find-links /opt/veriftools/wheels hypothesis || exit 2
 fi
-mkdir -p evidence replays
+mkdir -p evidence replays .deps
+if ! PYTHONPATH=.deps "$PY" -c "import atheris" 2>/dev/null; then
+  /venv/bin/pip install --no-index --find-links /opt/veriftools/wheels --target .deps atheris >/dev/null 2>&1 || echo "setup: atheris not installable, thorough-tier fuzz campaigns will be skipped"
+fi
 "$PY" -B -c 'import hypothesis, sys; sys.path.insert(0, "/repo"); import cocoasm.program; print("setup ok: hypothesis", hypothesis.__version__)'
